@@ -167,6 +167,36 @@ template <class E> struct Runner {
         return "crash";
     }
 
+    // ---------- watchdog ----------
+    // A run that makes no progress (a deadlock or an endless loop in the code under test) must not hang the check: a
+    // run is given hang_limit() seconds of wall clock, then its process is killed.  That alone proves nothing (the
+    // machine may be overloaded), so it only becomes a "hang" violation if the same plan also runs out of time when
+    // re-executed alone in a fresh child and in a fresh process image.
+    double hang_limit() const {
+        const char *e = getenv("VERIF_HANG_S");
+        if (e && atof(e) > 0) return atof(e);
+        return opt.thorough ? 300.0 : 12.0;
+    }
+    // waits for pid; kills it after limit seconds.  returns true if it had to be killed
+    static bool wait_limited(pid_t pid, double limit, int &st) {
+        double t0 = now_s();
+        useconds_t nap = 500;
+        for (;;) {
+            pid_t p = waitpid(pid, &st, WNOHANG);
+            if (p == pid) return false;
+            if (p < 0) { st = 0; return false; }
+            if (now_s() - t0 > limit) { kill(pid, SIGKILL); waitpid(pid, &st, 0); return true; }
+            usleep(nap);
+            if (nap < 20000) nap *= 2;
+        }
+    }
+    Result hang_result() const {
+        Result r;
+        r.fail("hang", "no-progress", "the run did not finish within " + std::to_string((int) hang_limit()) + " s of wall clock and was killed (deadlock or endless loop)", -1);
+        r.digest = hash_str(0, "hang");
+        return r;
+    }
+
     Result crash_result(int status, const std::string &errtxt) {
         Result r;
         r.fail("crash", crash_locus(errtxt), crash_detail(status, errtxt), -1);
@@ -191,9 +221,11 @@ template <class E> struct Runner {
             write_file(outp, r.to_json().dump());
             _exit(0);
         }
-        int st = 0; waitpid(pid, &st, 0);
+        int st = 0;
+        bool killed = wait_limited(pid, hang_limit(), st);
         std::string out = read_file(outp), err = read_file(errp);
         unlink(outp.c_str()); unlink(errp.c_str());
+        if (killed) return hang_result();
         if (WIFEXITED(st) && WEXITSTATUS(st) == 0 && !out.empty()) return Result::from_json(Json::parse(out));
         return crash_result(st, err);
     }
@@ -220,9 +252,11 @@ template <class E> struct Runner {
             execl(opt.self.c_str(), opt.self.c_str(), "--oneshot", inp.c_str(), (char *) nullptr);
             _exit(126);
         }
-        int st = 0; waitpid(pid, &st, 0);
+        int st = 0;
+        bool killed = wait_limited(pid, hang_limit(), st);
         std::string out = read_file(outp), err = read_file(errp);
         unlink(inp.c_str()); unlink(outp.c_str()); unlink(errp.c_str());
+        if (killed) return hang_result();
         if (WIFEXITED(st) && WEXITSTATUS(st) == 0 && !out.empty()) return Result::from_json(Json::parse(out));
         return crash_result(st, err);
     }
@@ -300,8 +334,8 @@ template <class E> struct Runner {
     }
 
     // ---------- sweep ----------
-    struct Slot { pid_t pid = 0; uint64_t batch = 0; std::string outp, errp; };
-    struct Shared { volatile uint64_t current_run[64]; };
+    struct Slot { pid_t pid = 0; uint64_t batch = 0; std::string outp, errp; bool hung = false; };
+    struct Shared { volatile uint64_t current_run[64]; volatile double run_started[64]; };
 
     struct Agg {
         uint64_t evaluations = 0, steps = 0, nontrivial = 0;
@@ -313,7 +347,7 @@ template <class E> struct Runner {
         std::vector<std::pair<uint64_t, uint64_t>> spot; // (run, digest) of the first run of some batches, re-executed after the sweep
     };
 
-    void child_batch(uint64_t batch, size_t bsz, uint64_t max_runs, const std::string &outp, volatile uint64_t *cur) {
+    void child_batch(uint64_t batch, size_t bsz, uint64_t max_runs, const std::string &outp, volatile uint64_t *cur, volatile double *started) {
         Json pk = E::pknobs(opt.seed, batch, opt.thorough);
         E::proc_setup(pk);
         FILE *f = fopen(outp.c_str(), "w");
@@ -322,7 +356,7 @@ template <class E> struct Runner {
         for (uint64_t i = 0; i < bsz; i++) {
             uint64_t run = batch * bsz + i;
             if (run >= max_runs) break;
-            *cur = run;
+            *started = now_s(); *cur = run;
             Plan plan = E::generate(opt.seed, run, pk, opt.thorough);
             Result r = E::execute(plan);
             fprintf(f, "R %llu %s %d %llu\n", (unsigned long long) run, hex64(r.digest).c_str(), r.nontrivial ? 1 : 0,
@@ -387,7 +421,14 @@ template <class E> struct Runner {
             } catch (const std::exception &) { /* a line cut short by a dying child: ignore it */ }
         }
         bool clean = WIFEXITED(status) && WEXITSTATUS(status) == 0 && ended;
-        if (!clean) {
+        if (s.hung) {
+            // killed by the watchdog inside a run: a candidate "hang" (confirmed or dismissed by the re-executions below)
+            uint64_t run = crashed_run == UINT64_MAX ? s.batch * bsz : crashed_run;
+            Json pk = E::pknobs(opt.seed, s.batch, opt.thorough);
+            Plan plan = E::generate(opt.seed, run, pk, opt.thorough);
+            agg.violations.push_back({run, {E::to_json(plan), hang_result()}});
+            agg.evaluations++;
+        } else if (!clean) {
             // the child died inside a run: that run is a crash-class violation of the property
             uint64_t run = crashed_run;
             if (run == UINT64_MAX) run = s.batch * bsz; // died outside any run: attribute to first
@@ -422,21 +463,31 @@ template <class E> struct Runner {
                 s.batch = next++;
                 s.outp = tmpdir + "/b." + std::to_string(getpid()) + "." + std::to_string(s.batch) + ".out";
                 s.errp = tmpdir + "/b." + std::to_string(getpid()) + "." + std::to_string(s.batch) + ".err";
-                sh->current_run[si] = UINT64_MAX;
+                sh->current_run[si] = UINT64_MAX; sh->run_started[si] = now_s(); s.hung = false;
                 fflush(stdout); fflush(stderr);
                 pid_t pid = fork();
                 if (pid == 0) {
                     int efd = open(s.errp.c_str(), O_WRONLY | O_CREAT | O_TRUNC, 0644);
                     if (efd >= 0) { dup2(efd, 2); close(efd); }
-                    child_batch(s.batch, bsz, max_runs, s.outp, &sh->current_run[si]);
+                    child_batch(s.batch, bsz, max_runs, s.outp, &sh->current_run[si], &sh->run_started[si]);
                     _exit(0);
                 }
                 s.pid = pid; active++;
             }
             if (active == 0) break;
             int st = 0;
-            pid_t p = waitpid(-1, &st, 0);
-            if (p <= 0) break;
+            pid_t p = waitpid(-1, &st, WNOHANG);
+            if (p < 0) break;
+            if (p == 0) {
+                // nobody finished: look for a run that has been going for longer than the limit
+                double t = now_s();
+                for (int i = 0; i < W; i++) {
+                    Slot &s = slots[(size_t) i];
+                    if (s.pid != 0 && !s.hung && t - sh->run_started[i] > hang_limit()) { s.hung = true; kill(s.pid, SIGKILL); }
+                }
+                usleep(2000);
+                continue;
+            }
             for (int i = 0; i < W; i++) {
                 Slot &s = slots[(size_t) i];
                 if (s.pid == p) {
@@ -456,7 +507,7 @@ template <class E> struct Runner {
                   [](const std::pair<uint64_t, std::pair<Json, Result>> &a, const std::pair<uint64_t, std::pair<Json, Result>> &b) { return a.first < b.first; });
         std::set<std::string> seen;
         Json reported = Json::array();
-        int nviol = 0, nknown = 0, unconfirmed = 0;
+        int nviol = 0, nknown = 0, unconfirmed = 0, slow_runs = 0;
         for (auto &v : agg.violations) {
             const Result &orig = v.second.second;
             std::string key = orig.vclass + "|" + orig.locus;
@@ -469,6 +520,7 @@ template <class E> struct Runner {
             Result a = run_forked(plan), b = run_exec(plan);
             bool ok = same_violation(orig, a) && same_violation(orig, b) && a.digest == b.digest &&
                       (orig.vclass == "crash" || a.digest == orig.digest);
+            bool was_hang = orig.vclass == "hang";
             if (!ok) {
                 uint64_t b0 = (v.first / bsz) * bsz;
                 Json pk = E::pknobs(opt.seed, v.first / bsz, opt.thorough);
@@ -487,6 +539,12 @@ template <class E> struct Runner {
                 ok = true; digest_unstable = true;
                 printf("NOTE property=%s run=%llu the violation reproduces in a forked child and in a fresh process (same class, locus and step) but incidental outputs differ between executions: the code under test is not deterministic for identical inputs\n", E::property(), (unsigned long long) v.first);
             }
+            if (!ok && was_hang && !a.violated && !b.violated) {
+                // it finished when run alone (and with its batch's earlier runs): the machine was slow, not the code
+                printf("NOTE property=%s run=%llu exceeded the %d s watchdog inside the sweep but completes when re-executed: not a violation\n", E::property(), (unsigned long long) v.first, (int) hang_limit());
+                slow_runs++;
+                continue;
+            }
             if (!ok) {
                 printf("HARNESS-NONDETERMINISM property=%s run=%llu sweep={%s,%s,%s} fork={%d,%s,%s,%s} exec={%d,%s,%s,%s}\n", E::property(),
                        (unsigned long long) v.first, orig.vclass.c_str(), orig.locus.c_str(), hex64(orig.digest).c_str(), a.violated, a.vclass.c_str(),
@@ -497,7 +555,8 @@ template <class E> struct Runner {
             }
             int used = 0;
             Prelude full_prelude = prelude;
-            Plan minp = opt.no_shrink ? plan : minimise(plan, orig, 400, used, prelude);
+            // every execution that reproduces a hang costs the full watchdog time: shrink those only a little
+            Plan minp = opt.no_shrink ? plan : minimise(plan, orig, was_hang ? 6 : 400, used, prelude);
             Result fin = run_exec(minp, prelude);
             if (!same_violation(orig, fin)) { minp = plan; prelude = full_prelude; fin = b; } // never report an unconfirmed minimisation
             // known finding?
@@ -534,7 +593,7 @@ template <class E> struct Runner {
 
         // ---- continuous determinism gate: re-execute a sample of runs alone in fresh children; digests must match ----
         uint64_t gate_replayed = 0, gate_matched = 0;
-        if (agg.violations.empty() && !agg.spot.empty()) {
+        if ((int) agg.violations.size() == slow_runs && !agg.spot.empty()) {
             Rng pick(opt.seed, "spot");
             size_t want = std::min<size_t>(agg.spot.size(), opt.thorough ? 200 : 40);
             for (size_t k = 0; k < want; k++) {
@@ -578,6 +637,7 @@ template <class E> struct Runner {
         ev["determinism_gate"] = dgate;
         ev["violations"] = nviol; ev["known_findings"] = nknown; ev["reports"] = reported;
         ev["harness_error"] = exit_code == 2;
+        ev["watchdog"] = Json::object(); ev["watchdog"]["limit_s"] = hang_limit(); ev["watchdog"]["slow_runs_dismissed"] = (uint64_t) slow_runs;
         E::describe(ev);
         if (!opt.out.empty()) write_file(opt.out, ev.dump(1));
         printf("[%s/%s] runs=%llu distinct_nontrivial=%zu steps=%llu sweep=%.1fs wall=%.1fs violations=%d known=%d\n", E::property(), opt.tag.c_str(),
@@ -630,7 +690,7 @@ template <class E> struct Runner {
         for (uint64_t b = 0; b < nb; b++) {
             std::string outp = tmpdir + "/d." + std::to_string(getpid()) + ".out";
             pid_t pid = fork();
-            if (pid == 0) { child_batch(b, bsz, opt.determinism, outp, &sh->current_run[0]); _exit(0); }
+            if (pid == 0) { child_batch(b, bsz, opt.determinism, outp, &sh->current_run[0], &sh->run_started[0]); _exit(0); }
             int st; waitpid(pid, &st, 0);
             std::istringstream in(read_file(outp)); unlink(outp.c_str());
             std::string line;
